@@ -301,3 +301,5 @@ def _(ctx):
             ok = isinstance(cfg, Obj) and is_sym(cfg.f.get('force_output')) and z3.eq(cfg.f['force_output'], fo) and is_sym(cfg.f.get('running_couplings')) and z3.eq(cfg.f['running_couplings'], rc)
             ctx.record('path%d.%s.config' % (k, out), PROVED if ok else FAILED, 'B', 0, 'force_output and running_couplings handed to the constructor unchanged')
     ctx.record('outcomes', PROVED if seen == {'Mass_basis', 'Gauge_basis', 'reject'} else FAILED, 'B', 0, 'outcomes reached: %s' % sorted(seen))
+_c04.make_flag_contract('C16')
+_c04.make_flag_contract('C16', cls='THDM_problems', file='src/THDM/THDM_problems.cpp', sectors=['hh', 'Ah', 'Hm'], tag='thdm_flag_tachyon', replay=None)
